@@ -38,19 +38,19 @@ Definition lexeme_ok (v : tokv) (x : list ch) : bool :=
             | Some w => list_N_eqb w (map cp x) && negb (tkind_eqb k KIdentifier)
             | None => false end
   | TIdent w => list_N_eqb w (map cp x) && word_shaped x && negb (is_keyword_text w)
-  | TLit z => match x with [] => false | _ => forallb (fun c => is_digit (cp c)) x && (decimal 0 x =? z)%Z end
+  | TNum z => match x with [] => false | _ => forallb (fun c => is_digit (cp c)) x && (decimal 0 x =? z)%Z end
   end.
 
 (* the token cannot be extended by the character that follows it *)
 Definition is_word_kind (v : tokv) : bool :=
-  match v with TIdent _ => true | TK k => existsb (tkind_eqb k) keyword_kinds | TLit _ => false end.
+  match v with TIdent _ => true | TK k => existsb (tkind_eqb k) keyword_kinds | TNum _ => false end.
 Definition maximal (v : tokv) (next : option ch) : bool :=
   match next with
   | None => true
   | Some c =>
       if is_word_kind v then negb (word_char c)
       else match v with
-           | TLit _ => negb (is_digit (cp c))
+           | TNum _ => negb (is_digit (cp c))
            | TK KMinus => negb (N.eqb (cp c) 62)
            | TK KLessThan | TK KGreaterThan => negb (N.eqb (cp c) 61)
            | TK KEquals => negb (N.eqb (cp c) 61) && negb (N.eqb (cp c) 62)
